@@ -58,7 +58,7 @@ func loopTo(v string, n int64, body ...*Node) *Node {
 // inside loops, lets, cond arms, closures, inside functions passed to map / apply, at depth.
 func idiom(r *lib.Rng) (*Program, string) {
 	n := int64(2 + r.Intn(3))
-	switch r.Intn(17) {
+	switch r.Intn(20) {
 	case 0: // map over an array; the callback has an effect before each failure point
 		return &Program{Forms: []*Node{Def("x", Arr(Int(1), Int(2), Int(3))), Def("y", Int(0)),
 			Def("f", Fn([]string{"a"}, "", Set("y", CallN("+", Var("y"), Var("a"))), failk(Var("a")))),
@@ -136,6 +136,34 @@ func idiom(r *lib.Rng) (*Program, string) {
 		return &Program{Forms: []*Node{Def("f", Nil()), Def("y", Int(0)),
 			For(lbl, Def("i", Int(0)), CallN("<", Var("i"), Int(2)), inc("i"), mk, inc("y")),
 			CallN("f", Int(0)), CallN("f", failk(Int(1))), CallN("f", Int(2)), Var("y")}}, "loop-exit-in-escaped-closure"
+	case 17, 18, 19: // a closure ESCAPES into a global from a function / let / letseq / for / newScope scope, then the
+		// evaluation fails while that scope is still active: the escaped closure keeps its captured variables
+		// (parameters, let variables, loop variables) and can be called - and can update them - afterwards
+		switch r.Intn(4) {
+		case 0:
+			return &Program{Forms: []*Node{Def("g", Nil()), Def("y", Int(0)),
+				Defn("f", []string{"p"}, "", Let(false, []string{"a"}, []*Node{CallN("+", Var("p"), Int(1))},
+					Set("g", Fn(nil, "", CallN("list", Var("p"), Var("a")))), Set("y", failk(Var("a"))), failk(Var("p")))),
+				CallN("f", Int(n)), CallN("g"), CallN("g")}}, "escaped-closure-param-let"
+		case 1:
+			return &Program{Forms: []*Node{Def("g", Arr()), Def("y", Int(0)),
+				For("", Def("i", Int(0)), CallN("<", Var("i"), Int(n)), inc("i"),
+					Scope(Def("b", CallN("+", Var("i"), Int(10))), Set("g", CallN("append", Var("g"), Fn(nil, "", CallN("+", Var("i"), Var("b"))))), Set("y", failk(Var("b"))))),
+				CallN("map", Fn([]string{"h"}, "", CallN("h")), Var("g")), Var("y")}}, "escaped-closure-loop-scope"
+		case 2:
+			return &Program{Forms: []*Node{Def("g", Nil()),
+				Defn("inner", []string{"q"}, "", CallN("+", failk(Var("q")), failk(Int(1)))),
+				Defn("f", []string{"p"}, "", Let(true, []string{"a", "b"}, []*Node{Var("p"), CallN("+", Var("a"), Int(1))},
+					Set("g", Fn([]string{"d"}, "", Set("a", CallN("+", Var("a"), Var("d"))), CallN("list", Var("a"), Var("b")))),
+					CallN("inner", Var("b")))),
+				CallN("f", Int(n)), CallN("g", Int(1)), CallN("g", Int(2))}}, "escaped-closure-updates-captured"
+		default:
+			return &Program{Forms: []*Node{Def("g", Nil()), Def("x", Arr(Nil())),
+				Defn("f", []string{"p", "q"}, "", CallN("aset", Var("x"), Int(0), Fn(nil, "", CallN("list", Var("p"), Var("q")))),
+					CallN("map", Fn([]string{"e"}, "", Let(false, []string{"c"}, []*Node{CallN("+", Var("e"), Var("p"))},
+						Set("g", Fn(nil, "", CallN("list", Var("c"), Var("e"), Var("q")))), failk(Var("c")))), Arr(Int(1), Int(2)))),
+				CallN("f", Int(n), Int(7)), Call(CallN("aget", Var("x"), Int(0))), CallN("g")}}, "escaped-closure-in-callback"
+		}
 	default: // newScope + def of a fresh global in the failing form itself
 		return &Program{Forms: []*Node{
 			Begin(Def("x", Int(1)), Scope(Def("y", failk(Int(2))), Set("x", failk(CallN("+", Var("x"), Var("y"))))), Def("y", failk(Int(5))), failk(Var("x")))}}, "scope-def"
@@ -229,7 +257,7 @@ func specFamily(r *lib.Rng) ([]specText, string) {
 	eff := func(e *Node) *Node { return Begin(Set("y", plus(Var("y"), Int(100))), e) }
 	effSrc := func(e string) string { return "(begin (set y (+ y 100)) " + e + ")" }
 	forms := func(fs ...*Node) []*Node { return fs }
-	switch r.Intn(12) {
+	switch r.Intn(13) {
 	case 0: // the thunk is stored in a global, its force fails inside the call, it is forced again later
 		return []specText{
 			{src: "(def kp nil) (def y 0) (defn lz [#a] (set kp #a) (let [v (+ 1 (force #a))] (set y v) v))",
@@ -275,6 +303,18 @@ func specFamily(r *lib.Rng) ([]specText, string) {
 			{src: "(force kp)", forms: forms(frc(Var("kp")))},
 			{src: "(force kp)", forms: forms(frc(Var("kp")))},
 		}, "lazy-nested"
+	case 12: // the lazy argument is made at a call site INSIDE a function: its expression refers to that function's
+		// parameter and let variable; the force fails while those scopes are active; forcing it later still sees them
+		return []specText{
+			{src: "(def kp nil) (defn lz [#a] (set kp #a) (+ 1 (force #a))) (defn h [p] (let [q (+ p 1)] (lz (+ p q (failk 1)))))",
+				forms: append(append(forms(Def("kp", Nil())), lazyLib()...),
+					Defn("lz", []string{"a"}, "", Set("kp", Var("a")), plus(Int(1), frc(Var("a")))),
+					Defn("h", []string{"p"}, "", Let(false, []string{"q"}, []*Node{plus(Var("p"), Int(1))},
+						CallN("lz", thunk(CallN("+", Var("p"), Var("q"), failk(Int(1))))))))},
+			{src: fmt.Sprintf("(def x (h %d))", n), forms: forms(Def("x", CallN("h", Int(n))))},
+			{src: "(force kp)", forms: forms(frc(Var("kp")))},
+			{src: "(+ (force kp) (h 1))", forms: forms(plus(frc(Var("kp")), CallN("h", Int(1))))},
+		}, "lazy-thunk-from-function-scope"
 	case 5, 6: // an existing macro survives a redefinition that fails to compile
 		i := r.Intn(len(macroRedefs))
 		return []specText{
